@@ -299,7 +299,7 @@ Definition sem (f : fs) (e : env) (c : call) : fs * res :=
                              end in
                 let f2 := if (touch && negb (match got with [] => true | _ => false end))%bool
                           then set_inode f1 (fd_ino x)
-                                 (mkInode (i_dir y) (i_data y) (i_mode y) (i_mtime y) (trunc g (Z.max (now_k f) (i_mtime y))) (i_nlink y) (i_synced y))
+                                 (mkInode (i_dir y) (i_data y) (i_mode y) (i_mtime y) (trunc g (now_k f)) (i_nlink y) (i_synced y))
                           else f1 in
                 (bump f2, RData got))
           end
@@ -343,7 +343,7 @@ Definition sem (f : fs) (e : env) (c : call) : fs * res :=
               let f4 := if (touch && negb (match data with [] => true | _ => false end))%bool
                         then match inode_of f3 (fd_ino xs) with
                              | Some y' => set_inode f3 (fd_ino xs)
-                                            (mkInode (i_dir y') (i_data y') (i_mode y') (i_mtime y') (trunc g (Z.max (now_k f) (i_mtime y'))) (i_nlink y') (i_synced y'))
+                                            (mkInode (i_dir y') (i_data y') (i_mode y') (i_mtime y') (trunc g (now_k f)) (i_nlink y') (i_synced y'))
                              | None => f3 end
                         else f3 in
               (f4, ROk)
